@@ -605,6 +605,11 @@ class Interp:
                     return [(st, FuncV(finfo=fi, selfv=v, name=attr))]
             if isinstance(inner, SemV) and attr == "_value":
                 return [(st, inner.v)]
+            hook = getattr(self.theory, "place_attr", None)
+            if hook is not None:
+                r = hook(st, fr, v, inner, attr)
+                if r is not None:
+                    return r
             return [(st, BuiltinV(attr, recv=v))]
         if isinstance(v, ObjV):
             # detached object held in a local: should have been wrapped as a local place by ev_Name callers
@@ -1169,6 +1174,10 @@ class Interp:
 
     def st_ClassDef(self, st, fr, n):
         return self.theory.classdef(st, fr, n)
+
+    def st_Nonlocal(self, st, fr, n):
+        """`nonlocal x`: the units that execute a nested function body directly bind its free variables as locals"""
+        return [(st, NORMAL)]
 
     def st_Import(self, st, fr, n):
         return [(st, NORMAL)]
